@@ -222,8 +222,9 @@ def r4(run):
                        reason="synthetic-frame-counted")
     run.floor("synthetic frame send sites", n, 2)
     # all other uses of the synthetic topics in the crate are readers (comparisons), never constructions handed to append
+    under_read = {x.def_ for x in facts.bodies_under(C.READ)}     # includes tasks Store::read spawns from private async fns
     for b in facts.all_bodies():
-        if b.def_.startswith(C.READ):
+        if b.def_.startswith(C.READ) or b.def_ in under_read:
             continue
         for c in b.calls():
             if c.bb in b.live_blocks() and c.fn == "xs::store::Frame::builder" and any(t in ("xs.threshold", "xs.pulse") for t in q.const_strs(c.arg(0))):
